@@ -50,6 +50,17 @@ func opRespRead(a []string) []string {
 	if err != nil {
 		return []string{c11ErrClass(err)}
 	}
+	out := respDumpTokens(&r)
+	unsent := 0
+	for _, f := range sc.frags {
+		unsent += len(f)
+	}
+	out = append(out, hx(r.Body()), strconv.Itoa(conn.Len()+unsent))
+	return out
+}
+
+// respDumpTokens: ok <status> <http11> <ct> <ce> <server> <cl> <clbytes> <connclose> <n> (k v)… <ncookies> v… <ntrailers> (k v)…
+func respDumpTokens(r *protocol.Response) []string {
 	s := protocol.VerifRespHeaderDump(&r.Header)
 	out := []string{"ok", strconv.Itoa(r.StatusCode()), b2i(r.Header.IsHTTP11()), hx(s.ContentType), hx(s.ContentEncoding), hx(s.Server),
 		strconv.Itoa(s.ContentLength), hx(s.ContentLengthBytes), b2i(s.ConnectionClose)}
@@ -62,11 +73,6 @@ func opRespRead(a []string) []string {
 	r.Header.Trailer().VisitAll(func(k, v []byte) { tr = append(tr, hx(k), hx(v)) })
 	out = append(out, strconv.Itoa(len(tr)/2))
 	out = append(out, tr...)
-	unsent := 0
-	for _, f := range sc.frags {
-		unsent += len(f)
-	}
-	out = append(out, hx(r.Body()), strconv.Itoa(conn.Len()+unsent))
 	return out
 }
 
@@ -137,6 +143,11 @@ func genC11(tier string, rng *Rng) {
 	}
 	genReqWrite(rng, n/2)
 	genReqMp(rng, n/20)
+	nseq := n / 3
+	if nseq > 30000 { // every sequence builds a client of its own (its cleaner goroutine lives 10 s)
+		nseq = 30000
+	}
+	genC11Seq(rng, nseq)
 	for i := 0; i < n; i++ {
 		wf := rng.Intn(4) != 0
 		s := genResponse(rng, wf)
